@@ -87,13 +87,43 @@ def run(prog, check):
              'the placeholder is registered with the model before it is returned', 'any placeholder')
     # the sanitiser
     san = None
+    cands_ = []
     for f in M.methods.values():
-        if any(isinstance(n, ast.Attribute) and n.attr == 'Aliases' for n in ast.walk(f.node)) and \
-                any(isinstance(c, ast.Call) and call_name(c) == '_ReplaceAliases' for c in ast.walk(f.node)):
-            san = f
+        fnode_ = flatten(prog, f).node
+        if any(isinstance(n, ast.Attribute) and n.attr == 'Aliases' for n in ast.walk(fnode_)) and \
+                any(isinstance(c, ast.Call) and call_name(c) == '_ReplaceAliases' for c in ast.walk(fnode_)):
+            cands_.append(f)
+    if cands_:
+        # the pass itself, not the entry points it is inlined into: the smallest function that has both
+        san = min(cands_, key=lambda f: len(list(ast.walk(flatten(prog, f).node))))
     if san is None:
         raise AnalysisError('alias pass (sanitiser) not found in Model')
     check.saw(san)
+    # the registry only grows: a placeholder handed out once stays resolvable by every later pass
+    for f in prog.all_functions():
+        if '/deprecated/' in f.module.rel:
+            continue
+        for n in ast.walk(f.node):
+            bad_ = None
+            if isinstance(n, (ast.Assign, ast.AugAssign, ast.Delete)):
+                tg_ = n.targets if isinstance(n, (ast.Assign, ast.Delete)) else [n.target]
+                flat_ = []
+                for t in tg_:
+                    flat_.extend(t.elts if isinstance(t, (ast.Tuple, ast.List)) else [t])
+                for t in flat_:
+                    if isinstance(t, ast.Attribute) and t.attr == 'Aliases' and f.name != '__init__':
+                        bad_ = 'the alias registry is replaced (`%s`)' % unparse(n)[:70]
+                    if isinstance(n, ast.Delete) and isinstance(t, ast.Subscript) and isinstance(t.value, ast.Attribute) and t.value.attr == 'Aliases':
+                        bad_ = 'an entry of the alias registry is deleted'
+            elif isinstance(n, ast.Call) and isinstance(n.func, ast.Attribute) and n.func.attr in ('clear', 'pop', 'popitem') and \
+                    isinstance(n.func.value, ast.Attribute) and n.func.value.attr == 'Aliases':
+                bad_ = 'entries of the alias registry are removed (`%s`)' % unparse(n)[:70]
+            if bad_:
+                check.saw(f)
+                check.ob('C05.R1', '%s::alias-registry-only-grows' % f.key, False, '%s:%d' % (f.module.rel, n.lineno),
+                         bad_ + ': a placeholder that was handed out before and is embedded into an equation afterwards is unknown to the next pass and survives',
+                         'a name requested before main(), embedded into a global equation after a first pass, then a second pass')
+    check.ob('C05.R1', '%s::alias-registry-kept' % san.key, True, san.where, 'no function of the package removes registered placeholders (scan of every store / remove on .Aliases)', '')
     # the private methods the pass runs through (calls and method values `fix = self._Helper`)
     family = [san]
     for f in family:
@@ -108,6 +138,15 @@ def run(prog, check):
     for f in family:
         check.saw(f)
     lookups = {t for n in ast.walk(san_flat.node) if isinstance(n, ast.Assign) and isinstance(n.value, (ast.Dict, ast.DictComp)) for t in target_names(n.targets[0])}
+    # plain copies of a lookup (`lookup = built`, the result variable of an inlined builder) are lookups
+    grew_ = True
+    while grew_:
+        grew_ = False
+        for n in ast.walk(san_flat.node):
+            if isinstance(n, ast.Assign) and len(n.targets) == 1 and isinstance(n.targets[0], ast.Name) and isinstance(n.value, ast.Name) and \
+                    n.value.id in lookups and n.targets[0].id not in lookups:
+                lookups.add(n.targets[0].id)
+                grew_ = True
     # names bound to a helper as a method value
     helper_aliases = {}
     for n in ast.walk(san_flat.node):
